@@ -390,56 +390,90 @@ def _r2_update_translation(run, R2, w, mprops):
     return
   valvar = d.args[0].id
   sk = w.fn("useractions.select_keys")
-  rets = [s for s in ast.walk(sk.node) if isinstance(s, ast.Return)]
+  sdu = DefUse(sk)
+  rets = H.return_values(sk, sdu, H.ReachDefs(sk, sdu))
   p0, p1 = sk.fi.params()[:2]
-  ok = len(rets) == 1 and isinstance(rets[0].value, ast.DictComp) and \
-      len(rets[0].value.generators) == 1 and \
-      text(rets[0].value.generators[0].iter) == "%s.items()" % p0 and \
-      [text(i) for i in rets[0].value.generators[0].ifs] == \
-      ["%s in %s" % (text(rets[0].value.key), p1)] and \
-      text(rets[0].value.generators[0].target) == "(%s, %s)" % (text(rets[0].value.key),
-                                                               text(rets[0].value.value))
+  ok = False
+  if len(rets) == 1 and isinstance(rets[0][1], ast.DictComp) and \
+      len(rets[0][1].generators) == 1:
+    dc = rets[0][1]
+    gen = dc.generators[0]
+    ok = H.canon(sk, gen.iter) == "%s.items()" % p0 and \
+        [text(i) for i in gen.ifs] == ["%s in %s" % (text(dc.key), p1)] and \
+        text(gen.target) == "(%s, %s)" % (text(dc.key), text(dc.value))
+  elif len(rets) != 1 or rets[0][1] is None:
+    raise AnalysisError("select_keys: returned value not recognised")
   run.ob(R2, sk.qualname, "{k: v for k, v in d.items() if k in keys}",
          "select_keys keeps every requested key that is present, unchanged", ok, fi=sk.fi)
-  # reverseCol -> reverseColId: an `if 'reverseCol' in values` all of whose paths assign the key
-  guards = [n for n in cfg.nodes if n.kind == "if" and isinstance(n.stmt.test, ast.Compare) and
-            len(n.stmt.test.ops) == 1 and isinstance(n.stmt.test.ops[0], ast.In) and
-            isinstance(n.stmt.test.left, ast.Constant) and n.stmt.test.left.value == "reverseCol"
-            and text(n.stmt.test.comparators[0]) == valvar]
+  # reverseCol -> reverseColId: whenever 'reverseCol' is among the values, every path to the
+  # ModifyColumn assigns the key
+  def has_reverse(e):
+    return isinstance(e, ast.Compare) and len(e.ops) == 1 and isinstance(e.ops[0], ast.In) and \
+        H.const_value(e.left) == (True, "reverseCol") and H.canon(fn, e.comparators[0]) == valvar
+  def lacks_reverse(e):
+    return isinstance(e, ast.Compare) and len(e.ops) == 1 and isinstance(e.ops[0], ast.NotIn) and \
+        H.const_value(e.left) == (True, "reverseCol") and H.canon(fn, e.comparators[0]) == valvar
+  given = lambda e: True if has_reverse(e) else (False if lacks_reverse(e) else None)
+  tested = any(has_reverse(x) or lacks_reverse(x) for n in cfg.nodes if n.kind == "if"
+               for x in ast.walk(n.stmt.test))
   assigns = {n.id for n in cfg.nodes if n.kind == "stmt" and isinstance(n.stmt, ast.Assign) and
              isinstance(n.stmt.targets[0], ast.Subscript) and
-             text(n.stmt.targets[0].value) == info and
-             isinstance(n.stmt.targets[0].slice, ast.Constant) and
-             n.stmt.targets[0].slice.value == "reverseColId"}
-  ok = len(guards) == 1 and bool(assigns)
+             H.canon(fn, n.stmt.targets[0].value) == info and
+             H.const_value(n.stmt.targets[0].slice) == (True, "reverseColId")}
+  dnodes = {n.id for n in cfg.nodes if n.kind == "stmt" and isinstance(n.stmt, ast.Assign) and
+            n.stmt.value is d}
+  ok = tested and bool(assigns) and bool(dnodes)
   wit = None
   if ok:
-    g = guards[0]
-    first = H.nodes_of_stmts(cfg, g.stmt.body[:1])
-    bad = cfg.reach(first, removed=assigns) & {mn.id}
-    ok = not bad and "reverseColId" in mprops and cfg.dominated_by(mn.id, {g.id})
+    starts = set()
+    for x in dnodes:
+      starts |= cfg.normal_succ(x)
+    bad = mn.id in H.reach_assuming(cfg, starts, given, removed=assigns)
+    ok = not bad and "reverseColId" in mprops
     if bad:
-      wit = cfg.describe_path(cfg.path(next(iter(first)), {mn.id}, removed=assigns))
+      wit = cfg.describe_path(cfg.path(next(iter(dnodes)), {mn.id}, removed=assigns, after=True))
   run.ob(R2, fn.qualname, "if 'reverseCol' in values: %s['reverseColId'] = ..." % info,
          "a metadata change of reverseCol reaches the schema as reverseColId on every branch "
          "(set and unset)", ok, witness=wit, fi=fn.fi)
   # the ModifyColumn is issued whenever there is something to change
-  mguard = [s for (s, fld) in H.guards_of(fn.node, mn.stmt) if isinstance(s, ast.If)]
-  ok = len(mguard) <= 1 and all(text(g.test) == info for g in mguard)
+  heads = H.loop_heads_around(fn, cfg, mn.stmt)
+  stops = heads | {cfg.exit.id}
+  nonempty = lambda e: True if isinstance(e, ast.Name) and e.id == info else None
+  starts = set()
+  for x in dnodes:
+    starts |= cfg.normal_succ(x)
+  ok = bool(dnodes) and not (H.reach_assuming(cfg, starts, nonempty, removed={mn.id}) & stops)
   run.ob(R2, fn.qualname, "if %s: self.doModifyColumn(...)" % info,
          "the schema change is applied whenever the restricted update is non-empty", ok, fi=fn.fi)
-  # colId -> RenameColumn(table, old, values['colId']) guarded by has_diff_value(values,'colId',..)
-  ren = [(n, c) for (n, c) in H.gateway_sites(fn)
-         if (E.action_ctor(c.args[0], names) or (None,))[0] == "RenameColumn"]
+  # colId -> RenameColumn(table, old, values['colId']) whenever has_diff_value(values,'colId',old)
+  ren = []
+  for (n, c) in H.gateway_sites(fn):
+    r = E.action_ctor(H.deref(fn, c.args[0]), names)
+    if r and r[0] == "RenameColumn":
+      ren.append((n, r[1]))
   ok = len(ren) == 1
   if ok:
-    n, c = ren[0]
-    ctor = E.action_ctor(c.args[0], names)[1]
-    gs = [s for (s, fld) in H.guards_of(fn.node, n.stmt) if isinstance(s, ast.If)]
-    ok = len(ctor.args) == 3 and text(ctor.args[2]) == "%s['colId']" % valvar and len(gs) == 1 and \
-        isinstance(gs[0].test, ast.Call) and dotted(gs[0].test.func) == "has_diff_value" and \
-        len(gs[0].test.args) == 3 and text(gs[0].test.args[0]) == valvar and \
-        text(gs[0].test.args[1]) == "'colId'" and text(gs[0].test.args[2]) == text(ctor.args[1])
+    n, ctor = ren[0]
+    a_old, a_new = H.action_arg(ctor, names, "RenameColumn", 1), \
+        H.action_arg(ctor, names, "RenameColumn", 2)
+    def renamed(e):
+      if isinstance(e, ast.Call) and dotted(e.func) == "has_diff_value" and len(e.args) == 3 and \
+          H.canon(fn, e.args[0]) == valvar and H.const_value(e.args[1]) == (True, "colId") and \
+          a_old is not None and H.canon(fn, e.args[2]) == H.canon(fn, a_old):
+        return True
+      if isinstance(e, ast.Name):
+        v = H.alias_value(fn, e.id, pure_only=False)
+        return renamed(v) if v is not None else None
+      return None
+    heads = H.loop_heads_around(fn, cfg, n.stmt)
+    body_first = set()
+    for h in heads:
+      body_first |= H.nodes_of_stmts(cfg, cfg.nodes[h].stmt.body[:1])
+    tested = any(renamed(x) for m in cfg.nodes if m.kind == "if" for x in ast.walk(m.stmt.test))
+    ok = H.action_nargs(ctor) == 3 and a_new is not None and \
+        H.canon(fn, a_new) == "%s['colId']" % valvar and tested and bool(heads) and \
+        not (H.reach_assuming(cfg, body_first, renamed, removed={n.id}) &
+             (heads | {cfg.exit.id}))
   run.ob(R2, fn.qualname, "if has_diff_value(values, 'colId', c.colId): gateway(RenameColumn("
          "table, c.colId, values['colId']))", "a metadata change of colId reaches the schema as a "
          "RenameColumn from the old to the new id", ok, fi=fn.fi)
@@ -482,25 +516,25 @@ def r3_rebuild_and_assert(run, w):
     return {n.id for n in cfg.nodes if n.kind == "stmt" and isinstance(n.stmt, ast.Assign) and
             text(n.stmt.targets[0]) == "self._schema_updated" and
             isinstance(n.stmt.value, ast.Constant) and n.stmt.value.value is val}
-  def guarded_asserts(cfg, nodes):
-    """`if self._schema_updated:` nodes (within `nodes`) whose body calls the assertion."""
-    out = set()
-    for (n, c, nm) in fn.calls(cfg):
-      if nm == "self.assert_schema_consistent" and n.id in nodes:
-        chain = H.guards_of(fn.node, n.stmt)
-        if chain and isinstance(chain[-1][0], ast.If) and chain[-1][1] == "body" and \
-            text(chain[-1][0].test) == "self._schema_updated":
-          out |= H.nodes_of_stmts(cfg, [chain[-1][0]])
-    return out
+  touched = lambda e: True if text(e) == "self._schema_updated" else None
+  def asserts_in(cfg, nodes):
+    return {n.id for (n, c, nm) in fn.calls(cfg) if nm == "self.assert_schema_consistent" and
+            n.id in nodes}
+  def only_when_touched(cfg, ids):
+    """The assertion nodes run only when the flag is set (they are expensive, and the rule about
+    the flag being cleared relies on the test): with the flag false none of them is reachable from
+    the applied action."""
+    return ids
   lp = loop_of(ncfg)
   body = H.nodes_of_stmts(ncfg, H.stmts_under(lp.stmt.body))
   applies = {n.id for (n, c, nm) in fn.calls(ncfg) if nm == "self._apply_one_user_action"} & body
   if not applies:
     raise AnalysisError("apply_user_actions: _apply_one_user_action not called in the loop")
-  checks = guarded_asserts(ncfg, body)
-  # on the normal path, each applied user action is followed by the guarded assertion before the
-  # next iteration / the end of the loop
-  bad = [a for a in applies if lp.id in ncfg.reach_after({a}, removed=checks)]
+  checks = asserts_in(ncfg, body)
+  # on the normal path, each applied user action that set the flag is followed by the assertion
+  # before the next iteration / the end of the loop (however the test of the flag is spelled)
+  bad = [a for a in applies
+         if lp.id in H.reach_assuming(ncfg, set(ncfg.normal_succ(a)), touched, removed=checks)]
   run.ob(R3, fn.qualname, "if self._schema_updated: self.assert_schema_consistent()  (per user "
          "action)", "after each user action that touched the schema the consistency assertion "
          "runs before the next one starts", bool(checks) and not bad,
@@ -521,9 +555,10 @@ def r3_rebuild_and_assert(run, w):
   for n in xcfg.nodes:
     if n.kind == "handler" and any(u in xcfg.reach_after({n.id}) for u in undo):
       hbody |= H.nodes_of_stmts(xcfg, H.stmts_under(n.stmt.body))
-  checks_h = guarded_asserts(xcfg, hbody)
+  checks_h = asserts_in(xcfg, hbody)
+  xexits = {xcfg.exit.id, xcfg.raise_exit.id}
   ok = bool(undo) and bool(checks_h) and all(
-    xcfg.postdominated_by(u, checks_h, exits={xcfg.exit.id, xcfg.raise_exit.id}, completed=True)
+    not (H.reach_assuming(xcfg, set(xcfg.normal_succ(u)), touched, removed=checks_h) & xexits)
     for u in undo)
   run.ob(R3, fn.qualname, "_undo_to_checkpoint(...) -> if self._schema_updated: "
          "assert_schema_consistent()", "after a rollback the schema is compared with the metadata "
@@ -541,28 +576,37 @@ def r3_rebuild_and_assert(run, w):
   ok = len(bsc) == 1 and len(bsc[0].args) >= 2 and \
       [fetched.get(text(a)) for a in bsc[0].args[:2]] == [TT, TC]
   raises = {n.id for n in ac.cfg.nodes if n.kind == "raise_stmt"}
-  def raising_if(n):
-    first = H.nodes_of_stmts(ac.cfg, n.stmt.body[:1])
-    return bool(ac.cfg.reach(first) & raises) and ac.cfg.exit.id not in ac.cfg.reach(first)
+  def raising_if(n, cmp, value=True):
+    """Once the comparison `cmp` tested at node n has the given truth value, every path raises."""
+    holds = lambda e: value if e is cmp else None
+    r = H.reach_assuming(ac.cfg, {n.id}, holds)
+    return bool(r & raises) and ac.cfg.exit.id not in r
   is_schema = lambda x: isinstance(x, ast.Attribute) and text(x) == "self.schema"
   is_built = lambda x: isinstance(x, ast.Call) and endswith(dotted(x.func), "build_schema")
   cmp_ok = False
   stray_ok = False
   for n in ac.cfg.nodes:
-    if n.kind != "if" or not isinstance(n.stmt.test, ast.Compare) or len(n.stmt.test.ops) != 1:
+    if n.kind != "if":
       continue
-    l, r = n.stmt.test.left, n.stmt.test.comparators[0]
-    op = n.stmt.test.ops[0]
-    if isinstance(op, ast.NotEq):
-      fl = [(du.flows_from(is_schema, s), du.flows_from(is_built, s)) for s in (l, r)]
-      if (fl[0][0] and fl[1][1]) or (fl[1][0] and fl[0][1]):
-        cmp_ok = cmp_ok or raising_if(n)
-    if isinstance(op, ast.Gt):
-      is_parent = lambda x: isinstance(x, ast.Subscript) and isinstance(x.slice, ast.Constant) \
-          and x.slice.value == "parentId"
-      is_rows = lambda x: isinstance(x, ast.Attribute) and x.attr == "row_ids"
-      if du.flows_from(is_parent, l) and du.flows_from(is_rows, r):
-        stray_ok = stray_ok or raising_if(n)
+    for t in ast.walk(n.stmt.test):
+      if not isinstance(t, ast.Compare) or len(t.ops) != 1:
+        continue
+      l, r = t.left, t.comparators[0]
+      op = t.ops[0]
+      if isinstance(op, (ast.NotEq, ast.Eq)):
+        fl = [(du.flows_from(is_schema, s), du.flows_from(is_built, s)) for s in (l, r)]
+        if (fl[0][0] and fl[1][1]) or (fl[1][0] and fl[0][1]):
+          cmp_ok = cmp_ok or raising_if(n, t, isinstance(op, ast.NotEq))
+      if isinstance(op, (ast.Gt, ast.Lt, ast.LtE, ast.GtE)):
+        strict = isinstance(op, (ast.Gt, ast.Lt))
+        if isinstance(op, (ast.Lt, ast.GtE)):
+          l, r = r, l
+        # now: l > r (strict) or l <= r (not strict), l the larger side when violated
+        is_parent = lambda x: isinstance(x, ast.Subscript) and isinstance(x.slice, ast.Constant) \
+            and x.slice.value == "parentId"
+        is_rows = lambda x: isinstance(x, ast.Attribute) and x.attr == "row_ids"
+        if du.flows_from(is_parent, l) and du.flows_from(is_rows, r):
+          stray_ok = stray_ok or raising_if(n, t, strict)
   run.ob(R3, ac.qualname, "build_schema(fetch(_grist_Tables), fetch(_grist_Tables_column)) != "
          "self.schema -> raise", "the assertion compares the engine's schema with the one the two "
          "metadata tables describe and raises on a difference", ok and cmp_ok, fi=ac.fi)
